@@ -110,9 +110,11 @@ Inductive label :=
 | LBootReject | LBootCrash | LBootCreate (sid : nat) (c : config)
 | LProbeOk | LProbeErr | LProbeCancelled | LProbeTimeout | LCleanupCall (sid : nat)
 | LBindOk (sid : nat) | LBindFail (sid : nat) | LPushErr (sid : nat) | LLasClosed (sid : nat)
+| LServeSkip (sid : nat)
 | LForeignBind (a : str) | LForeignFree (a : str)
 | LObsState (f : fsm) | LObsDial (a : str) (b : bool)
 | LObsServe (a : str) (tbl : list (str * option str))
+| LObsCensus (n : nat)
 | LQuiesce.
 
 Inductive event :=
@@ -126,6 +128,7 @@ Inductive event :=
 | ELasFail (sid : nat) | ELasClosed (sid : nat)
 | EForeignBind (a : str) | EForeignFree (a : str)
 | EState (f : fsm) | EDial (a : str) (b : bool) | EServe (a : str) (tbl : list (str * option str))
+| ECensus (n : nat)
 | EQuiesce.
 
 Definition obs (l : label) : option event :=
@@ -150,6 +153,7 @@ Definition obs (l : label) : option event :=
   | LObsState f => Some (EState f)
   | LObsDial a b => Some (EDial a b)
   | LObsServe a t => Some (EServe a t)
+  | LObsCensus n => Some (ECensus n)
   | LQuiesce => Some EQuiesce
   | _ => None
   end.
@@ -208,6 +212,12 @@ Definition ostr_eqb (a b : option str) : bool :=
 
 Definition ctx_cancelled (s : state) : bool := cancelled s || run_cancelled s.
 
+(* C18: the goroutines the runner creates on its own behalf are the serve goroutines started by boot()
+   ("go func() { server.ListenAndServe() ... }()"): one per server ever created, alive until ListenAndServe has
+   returned and (after a bind failure) its error has been sent.  Run, Reload and stopServer start nothing else. *)
+Definition serve_alive (x : srv) : bool := negb (sv_pc_eqb (s_pc x) SvExited).
+Definition census (s : state) : nat := length (filter serve_alive (servers s)).
+
 (* record updates *)
 Definition with_fsm (s : state) f := {| fsm_st := f; cur := cur s; server := server s; once_done := once_done s;
   errs := errs s; servers := servers s; net := net s; rpc := rpc s; holder := holder s; kpc := kpc s;
@@ -263,6 +273,11 @@ Definition init (c : config) : state := {|
   stop_req := false; cancelled := false; run_cancelled := false; crashed := false |}.
 
 Section Model.
+  (* [stop_locked]: false = Run.shutdown as it was (Transition(Stopping) BEFORE r.mutex.Lock: refused while a
+     Reload is in the Reloading state, so that Run() then closes the listener under the state Running);
+     true = with hooks/candidate-fix-c12-stopping-under-mutex.patch (the mutex is taken first, so an in-flight
+     Reload has left Reloading before the transition is attempted). *)
+  Variable stop_locked : bool.
   Variable validated : bool.
   Variable mux_ok : list str -> bool.
 
@@ -323,7 +338,8 @@ Section Model.
     match kpc s with
     | KStopWait sid | KCleanup sid =>
       match srv_at s sid with
-      | Some sv => str_eqb (addr (s_cfg sv)) a && sv_pc_eqb (s_pc sv) SvListening
+      | Some sv => str_eqb (addr (s_cfg sv)) a     (* whatever the serve goroutine has logged meanwhile: the
+                                                      dial may have completed before ListenAndServe returned *)
       | None => false
       end
     | _ => false
@@ -357,8 +373,8 @@ Section Model.
     | LRunWake =>                          (* select: ctx.Done or StopCh; runCancel; Transition(Stopping) *)
       match rpc s with
       | RSelect => if cancelled s || stop_req s
-                   then Some (with_rpc (transition (with_env s (stoppers s) (stop_req s) (cancelled s) true) FStopping)
-                                       RWantStop)
+                   then let s1 := with_env s (stoppers s) (stop_req s) (cancelled s) true in
+                        Some (with_rpc (if stop_locked then s1 else transition s1 FStopping) RWantStop)
                    else None
       | _ => None
       end
@@ -371,7 +387,8 @@ Section Model.
       end
     | LRunLockStop =>
       match rpc s, holder s with
-      | RWantStop, None => Some (with_rpc (with_crit s (Some ByRun) KStopPending) RInStop)
+      | RWantStop, None =>                 (* r.mutex.Lock(); repaired: Transition(Stopping) under the mutex *)
+        Some (with_rpc (with_crit (if stop_locked then transition s FStopping else s) (Some ByRun) KStopPending) RInStop)
       | _, _ => None
       end
     | LRunRet r =>
@@ -563,6 +580,14 @@ Section Model.
         else None
       | _, _ => None
       end
+    | LServeSkip sid =>                    (* the goroutine finds r.server == nil ("Server was nil, not starting") *)
+      match srv_at s sid, server s with
+      | Some sv, None =>
+        if s_shut sv && sv_pc_eqb (s_pc sv) SvStart
+        then Some (with_srvnet s (upd_srv (servers s) sid (set_pc SvExited)) (net s))
+        else None
+      | _, _ => None
+      end
     | LLasClosed sid =>                    (* ListenAndServe returns ErrServerClosed *)
       match srv_at s sid with
       | Some sv =>
@@ -594,6 +619,7 @@ Section Model.
         end
       | _ => None
       end
+    | LObsCensus n => if Nat.eqb (census s) n then Some s else None
     | LQuiesce => None
     end.
 
@@ -602,7 +628,7 @@ Section Model.
     [LRunStart; LRunLock; LRunFinishBoot; LRunWake; LRunServeErr; LRunLockStop; LUnchanged; LFinish;
      LStopSkip; LBootReject; LProbeOk; LProbeErr; LProbeCancelled; LProbeTimeout]
     ++ map LReloadBegin (rl_wait s)
-    ++ flat_map (fun sid => [LBindOk sid; LPushErr sid]) (seq 0 (length (servers s))).
+    ++ flat_map (fun sid => [LBindOk sid; LPushErr sid; LServeSkip sid]) (seq 0 (length (servers s))).
 
   Definition quiescent (s : state) : bool :=
     forallb (fun l => match step_core s l with Some _ => false | None => true end) (taus s).
@@ -635,6 +661,7 @@ Section Model.
     | EState f => [LObsState f]
     | EDial a b => [LObsDial a b]
     | EServe a t => [LObsServe a t]
+    | ECensus n => [LObsCensus n]
     | EQuiesce => [LQuiesce]
     end.
 End Model.
@@ -668,6 +695,7 @@ Definition event_eqb (a b : event) : bool :=
   | EState x, EState y => fsm_eqb x y
   | EDial x b, EDial y c => str_eqb x y && Bool.eqb b c
   | EServe x t, EServe y u => str_eqb x y && tbl_eqb t u
+  | ECensus x, ECensus y => Nat.eqb x y
   | _, _ => false
   end.
 
@@ -709,6 +737,8 @@ Definition key (s : state) : list N :=
 
 (* THE switch: false = the code as it is in /repo (NewConfig does not validate patterns);
    flip to true once hooks/fix-c19-validate-mux-patterns.patch is committed in /repo *)
+(* the same for Run.shutdown: false = /repo before hooks/candidate-fix-c12-stopping-under-mutex.patch *)
+Definition stop_locked_now : bool := true.
 Definition validated_now : bool := true.   (* /repo d243ed6: NewConfig validates the patterns *)
 
 (* BootCrash's guard as a stand-alone predicate (used by the C19 driver): does booting this route
@@ -717,10 +747,10 @@ Definition predicts_crash (validated : bool) (mux_ok : list str -> bool) (rs : l
   new_config_ok validated mux_ok rs && negb (mux_ok (map rpath rs)).
 
 (* ---- the acceptor instance used by the correspondence check (LTS.accept_from) ---- *)
-Definition http_accept (validated : bool) (mux_ok : list str -> bool) (fuel : nat) (c0 : config)
+Definition http_accept (stop_locked validated : bool) (mux_ok : list str -> bool) (fuel : nat) (c0 : config)
   (t : list event) : list state * bool :=
-  accept_from state label event (step validated mux_ok) obs (taus) (vis) event_eqb key fuel [init c0] t.
+  accept_from state label event (step stop_locked validated mux_ok) obs (taus) (vis) event_eqb key fuel [init c0] t.
 
-Definition http_depth (validated : bool) (mux_ok : list str -> bool) (fuel : nat) (c0 : config)
+Definition http_depth (stop_locked validated : bool) (mux_ok : list str -> bool) (fuel : nat) (c0 : config)
   (t : list event) : nat :=
-  accept_depth state label event (step validated mux_ok) obs (taus) (vis) event_eqb key fuel [init c0] t.
+  accept_depth state label event (step stop_locked validated mux_ok) obs (taus) (vis) event_eqb key fuel [init c0] t.
